@@ -171,7 +171,7 @@ func runMerge(cfg *runCfg, prop string, injectPct int, oracle string) error {
 			for _, i := range order {
 				perm = append(perm, fmt.Sprint(i))
 			}
-			mt := "{| m_types := []; m_dirs := []; m_possible := []; m_implements := [] |}"
+			mt := "{| m_types := []; m_dirs := []; m_possible := []; m_implements := []; m_roots := [] |}"
 			ut := "[]"
 			if obs.Class == "ok" {
 				mt = c.Merged(obs.schema)
@@ -206,7 +206,7 @@ func runMerge(cfg *runCfg, prop string, injectPct int, oracle string) error {
 				for _, i := range obs.Order {
 					perm = append(perm, fmt.Sprint(i))
 				}
-				mt := "{| m_types := []; m_dirs := []; m_possible := []; m_implements := [] |}"
+				mt := "{| m_types := []; m_dirs := []; m_possible := []; m_implements := []; m_roots := [] |}"
 				ut := "[]"
 				if obs.Class == "ok" {
 					mt = c.Merged(obs.schema)
@@ -315,6 +315,17 @@ func mergeCorpus() []*mergeCase {
 		mk("corpus: directive applied to a union in one service only", q+"directive @tag(name: String) on INTERFACE | ENUM | UNION\ntype P { a: String }\ntype R { a: String }\nunion M @tag(name: \"a\") = P | R",
 			q+"type P { a: String }\ntype R { a: String }\nunion M = P | R"),
 		mk("corpus: directive applied to an argument in one service only", q+"directive @tag(name: String) on ARGUMENT_DEFINITION\ntype T { f(a: Int @tag(name: \"a\")): String }", q+"type T { f(a: Int): String }"),
+		// two repeatable directives, the same number of applications in all but not per directive
+		mk("corpus: repeated directives, equal totals, different counts per directive",
+			q+rep+"directive @owner(name: String) repeatable on OBJECT | FIELD_DEFINITION\ntype T { x: Int @tag(name: \"a\") @tag(name: \"a\") @owner(name: \"x\") }",
+			q+rep+"directive @owner(name: String) repeatable on OBJECT | FIELD_DEFINITION\ntype T { x: Int @tag(name: \"a\") @owner(name: \"x\") @owner(name: \"y\") }"),
+		mk("corpus: repeated directives, equal totals, different counts per directive (three services)",
+			q+rep+"directive @owner(name: String) repeatable on OBJECT | FIELD_DEFINITION\ntype T @tag(name: \"a\") @owner(name: \"x\") @owner(name: \"y\") { x: Int }",
+			q+rep+"directive @owner(name: String) repeatable on OBJECT | FIELD_DEFINITION\ntype T @tag(name: \"a\") @tag(name: \"a\") @owner(name: \"x\") { x: Int }",
+			q+rep+"directive @owner(name: String) repeatable on OBJECT | FIELD_DEFINITION\ntype T @tag(name: \"a\") @tag(name: \"a\") @owner(name: \"x\") { x: Int }"),
+		// every root operation type of every service is a root of the merged schema
+		mk("", "type Query { a: String }\ntype Subscription { changed(id: ID!): String }\ntype Mutation { touch: String }", "type Query { b: String }\ntype Subscription { added: String }"),
+		mk("", "type Query { a: String }\ntype Subscription { changed(id: ID!): String }", "type Query { b: String }"),
 		mk("corpus: union different member (same count)", q+"type P { a: String }\ntype R { a: String }\nunion M = P | R", q+"type P { a: String }\ntype S { a: String }\nunion M = P | S"),
 	}
 }
